@@ -3,7 +3,7 @@
 # Applies a change to a scratch worktree of /repo, runs one check against it (evidence/replay go to a
 # scratch dir), prints the verdict lines, and removes worktree + build output again.
 set -u
-CHANGE="$1"; PROP="$2"; TIER="${3:-quick}"; SEED="${4:-0}"
+CHANGE="$1"; [[ "$CHANGE" != revert:* && "$CHANGE" != /* ]] && CHANGE="$PWD/$CHANGE"; PROP="$2"; TIER="${3:-quick}"; SEED="${4:-0}"
 WT=$(mktemp -d /tmp/vp-mut-XXXXXX)
 rmdir "$WT"
 git -C /repo worktree add -q --detach "$WT" HEAD || exit 2
@@ -19,6 +19,12 @@ RC=$?
 grep -E "^(VIOLATION|KNOWN-FINDING|BROKEN|C[0-9]+ tier)" "$OUT/log" | cut -c1-220 | head -12
 grep -A3 "^VIOLATION" "$OUT/log" | head -12 | cut -c1-300
 echo "exit=$RC"
+# replay the first reported violation against the changed tree (must reproduce) and against the unchanged tree (must hold)
+FIRST=$(grep -m1 "^VIOLATION" "$OUT/log" | sed -E 's/.*replay=//')
+if [ -n "$FIRST" ] && [ "${NO_REPLAY:-0}" != 1 ]; then
+  VERIF_REPO="$WT" VERIF_OUT="$OUT" ./check "$PROP" --replay "$FIRST" > "$OUT/replay-mut.log" 2>&1; echo "replay on changed tree: exit=$? ($(grep -m1 '^replay verdict' "$OUT/replay-mut.log"))"
+  VERIF_OUT="$OUT" ./check "$PROP" --replay "$FIRST" > "$OUT/replay-clean.log" 2>&1; echo "replay on unchanged tree: exit=$? ($(grep -m1 '^replay verdict' "$OUT/replay-clean.log"))"
+fi
 mkdir -p /tmp/mut/replays/$PROP; cp -r "$OUT/replay/$PROP/." /tmp/mut/replays/$PROP/ 2>/dev/null; cp "$OUT/log" /tmp/mut/replays/$PROP/log 2>/dev/null
 KEY=$(python3 -c "import hashlib,sys;print('alt-'+hashlib.sha1(sys.argv[1].encode()).hexdigest()[:10])" "$WT")
 rm -rf "/verif/target/$KEY" "/verif/target/harness-$KEY" "$OUT"
